@@ -55,6 +55,8 @@ def shards(tier, seed):
         out += T.shard_list(3, 2, 3, 'c06m', extra={'sub': 'edits', 'k': 3, 'bounds': b})
         out += T.shard_list(3, 3, 3, 'c06m', extra={'sub': 'edits', 'k': 2, 'bounds': b})
         out += T.shard_list(4, 4, 4, 'c06n', pin=3, extra={'sub': 'edits', 'k': 2, 'bounds': b})
+    # (ii') surplus POPs: k extra POPs on each triple in turn, k = 1..5
+    out += T.shard_list(3, 3, 3, 'c06m', extra={'sub': 'surplus', 'bounds': 'decoding of TREE(3,3,3) (c06m alphabet) with 1..5 surplus POPs added on each triple in turn, every top'})
     # (iii) totality
     L = 3 if q else 4
     alphabet = _tot_alphabet()
@@ -97,6 +99,9 @@ def cases(shard):
     elif sub == 'edits':
         for t in T.shard_trees(shard):
             yield {'t': t, 'k': shard['k']}
+    elif sub == 'surplus':
+        for t in T.shard_trees(shard):
+            yield {'t': t}
     else:
         alphabet = _tot_alphabet()
         first = tuple(shard['first'])
@@ -133,6 +138,8 @@ def check(case, ctx):
             ctx.nontrivial += 1
     elif sub == 'edits':
         _check_edits(case, ctx, pm, rm)
+    elif sub == 'surplus':
+        _check_surplus(case, ctx, pm, rm)
     else:
         _check_totality(case, ctx, pm, rm)
 
@@ -221,6 +228,28 @@ def _check_edits(case, ctx, pm, rm):
         depth += 1
     ctx.cats['states'] += len(seen)
     ctx.max_depth = max(ctx.max_depth, depth)
+    ctx.nontrivial += 1
+
+
+def _check_surplus(case, ctx, pm, rm):
+    import penman
+    from penman.tree import Tree
+    t = T.totuple(case['t'])
+    if not RI.well_formed_tree(t, rm):
+        ctx.cats['not_well_formed'] += 1
+        return
+    g0 = penman.interpret(Tree(t), model=pm)
+    triples = list(g0.triples)
+    variables = sorted(v for v in g0.variables() if v is not None)
+    order, marks = _state_of(g0)
+    wants = {top: RI.content(triples, top, rm) for top in variables}
+    for i in range(len(order)):
+        for k in range(1, 6):
+            st = (order, marks[:i] + (marks[i] + ('O',) * k,) + marks[i + 1:])
+            g = _graph_of_state(st)
+            for top in variables:
+                if not C03._roundtrip(ctx, pm, rm, 'DEFAULT', g, top, wants[top], f'surplus({k} POPs on triple {i})'):
+                    return
     ctx.nontrivial += 1
 
 
